@@ -65,8 +65,26 @@ impl Scenario {
         }
     }
 
+    /// Canonical spelling of the program.  Knob `layout` = 1: one command per line with runs of
+    /// blank lines in between (line numbers grow beyond column numbers); the commands are the same.
     pub fn source(&self) -> String {
-        crate::reflang::program_source(&self.cmds)
+        if self.knob("layout") != 1 {
+            return crate::reflang::program_source(&self.cmds);
+        }
+        let mut s = String::new();
+        for (i, c) in self.cmds.iter().enumerate() {
+            if i > 0 {
+                s.push('\n');
+                let h = simcore::mix(self.plan.key ^ 0x1A70 ^ (i as u64) << 7);
+                if h % 3 == 0 {
+                    for _ in 0..(1 + (h >> 8) % 14) {
+                        s.push('\n');
+                    }
+                }
+            }
+            c.source(&mut s);
+        }
+        s
     }
 
     pub fn file_content(&self) -> Vec<u8> {
